@@ -250,7 +250,15 @@ def make_machine(gen: int, stats: Stats):
         def start_with_failed_write(self, kp, retries, lifetime, burst, lat):
             if self.x is None:
                 self.x = Interp(gen, False, lat)
-                self._do(["fault_burst", kp[0], kp[1], retries, lifetime, [[b[0][0], b[0][1], b[1]] for b in burst]])
+                items = [[b[0][0], b[0][1], b[1]] for b in burst]
+                if retries and len(burst) % 3 == 0:
+                    # the message held for a retry is the only short-lived one: it expires alone while the rest stay
+                    lifetime = 2.0
+                    items = [[k, p, 30.0] for k, p, _l in items]
+                self._do(["fault_burst", kp[0], kp[1], retries, lifetime, items])
+                if retries and len(burst) % 3 == 0:
+                    self._do(["advance", 2.0])
+                    self._do(["send", kp[0], kp[1], 0, 30.0])
 
         @rule(kp=sockops.kind_and_params(gen), retries=st.integers(0, 3), lifetime=st.sampled_from(LIFETIMES))
         def send(self, kp, retries, lifetime):
